@@ -17,6 +17,7 @@ ENGINE_NAMES = {
     'C': 'C effects: modular frame/effect checker over the real AST',
     'D': 'D fdx: exhaustive evaluation of the real function on a finite domain',
     'E': 'E rtc: bounded run-time contracts on the real functions (never counted as proved)',
+    'R': 'R ranges: range contracts - the real AST over intervals (reals), callee by contract; safety obligations by interval, algebraic rule or z3 nlsat on the polynomial abstraction',
 }
 
 
